@@ -497,7 +497,7 @@ def run(ctx):
     if ctx.shard == 0:
         for cls, init, pos, steps in DIRECTED:
             ctx.run_case(lambda c, k: episode(c, k), {'cls': cls, 'init': init, 'pos': pos, 'steps': [list(x) for x in steps]})
-    n = ctx.scale(12000, 400000)
+    n = ctx.scale(36000, 600000)
     lengths = [0, 1, 7, 8, 9, 16, 17, 24, 33, 64, 65, 100, 128, 257, 1000]
     for i in range(n):
         L = ctx.rng.choice(lengths)
